@@ -1,6 +1,7 @@
 """Witness pools: real types (-> real converter objects of every class) and interchange values,
 including the adversarial witnesses of the assumed stdlib contracts."""
 import collections
+import copy
 import collections.abc as abc
 import datetime
 import decimal
@@ -795,3 +796,122 @@ VALUES.extend([{'width': 3, 'height': None}, {'lo': 1, 'hi': None}, {'a': 'x', '
 TYPES.extend([{'inner': {'a': int}, 'y': int}, t.Union[t.Annotated[t.Union[int, float], Positive], t.List[str]],
               {'f': t.Optional[t.Annotated[t.Union[int, float], Positive]]}])
 VALUES.extend([{'inner': {'a': 'x'}}, {'inner': {'a': 'x'}, 'y': 1, 'zz': 2}, {'inner': {'a': 'x'}, 'zz': 2}, {'f': -3}, {'f': 'q'}])
+
+
+# ---- scalar rows / buildable types (bounded contracts in contracts/bounded_convert.py) ----------------------------------------
+class SStr(str):
+    pass
+
+
+class SInt(int):
+    pass
+
+
+class MixedEnum(enum.Enum):
+    A = 1
+    B = 'x'
+
+
+def _scalar_case(target, value):
+    """(verdict, image, serialised image, re-parsed) at top level; the same verdict is required inside a list and a dataclass field"""
+    try:
+        x = pane.from_data(copy.deepcopy(value), target)
+    except pane.ConvertError:
+        verdict = ('ConvertError',)
+    except Exception as e:      # noqa
+        return ('exc:' + type(e).__name__,)
+    else:
+        ser = pane.into_data(x, target)
+        verdict = ('ok', x, ser, pane.from_data(ser, target))
+    # contexts: the verdict must not depend on where the value sits
+    for ctx_ty, ctx_val in ((t.List[target], [value]), ({'f': target}, {'f': value})):
+        try:
+            pane.from_data(copy.deepcopy(ctx_val), ctx_ty)
+            ok = True
+        except pane.ConvertError:
+            ok = False
+        except Exception as e:  # noqa
+            return ('exc:' + type(e).__name__ + ' in ' + str(ctx_ty),)
+        if ok != (verdict[0] == 'ok'):
+            return ('context-dependent verdict in ' + str(ctx_ty),)
+    return verdict
+
+
+_SCALAR_VALUES = [True, False, 0, 5, -1, 1.5, 2.0, 1 + 2j, 'x', '', 'abc', b'x', bytearray(b'y'), None, [1], ['a', 1], {'a': 1}, ()]
+_SCALAR_TARGETS = [bool, int, float, complex, str, bytes, bytearray, type(None), SStr, SInt]
+CUSTOM['pane.convert:scalar_rows.bounded'] = lambda m: [(_scalar_case, ['target', 'value'], (tg, v), f'from_data({v!r}, {tg.__name__})')
+                                                        for tg in _SCALAR_TARGETS for v in _SCALAR_VALUES]
+
+
+def _buildable_case(ty, good, bad):
+    try:
+        conv = make_converter(ty)
+    except Exception as e:      # noqa
+        return {'built': False, 'accepts': [], 'accepts_bad': [], 'error': f'{type(e).__name__}: {e}'}
+
+    def acc(v):
+        try:
+            conv.convert(copy.deepcopy(v))
+            return True
+        except pane.ConvertError:
+            return False
+    return {'built': True, 'accepts': [acc(v) for v in good], 'accepts_bad': [acc(v) for v in bad]}
+
+
+def _buildable_instances(m):
+    cases = [(MixedEnum, [1, 'x'], [2, 'y', None, 1.5]), (Color, [c.value for c in Color][:2], ['nope', None]),
+             (SStr, ['abc', ''], [1, ['a'], None]), (SInt, [1, True], ['1', 1.5]),
+             (t.Optional[int], [1, None], ['x']), (t.Union[int, str], [1, 'x'], [None, 1.5])]
+    try:
+        cases.append((eval('int | str'), [1, 'x'], [None, 1.5]))           # PEP 604 spelling
+        cases.append((eval('list[int] | None'), [[1], None], ['x', [1.5]]))
+    except TypeError:
+        pass
+    return [(_buildable_case, ['ty', 'good', 'bad'], c, f'make_converter({c[0]!r})') for c in cases]
+
+
+CUSTOM['pane.convert:buildable.bounded'] = _buildable_instances
+
+
+def _class_roundtrip_case(obj):
+    ty = type(obj)
+    data = pane.into_data(obj, ty)
+    try:
+        back = pane.from_data(copy.deepcopy(data), ty)
+    except pane.ConvertError as e:
+        return ('ConvertError', str(e).splitlines()[0], data, None)
+    return ('ok', back, data, pane.into_data(back, ty))
+
+
+CUSTOM['pane.classes:class_roundtrip.bounded'] = lambda m: [(_class_roundtrip_case, ['obj'], (o,), f'class_roundtrip[{type(o).__name__}] {o!r}')
+                                                           for o in _base_objs()]
+
+
+def _fixed_point_case(value, ty):
+    try:
+        y = pane.convert(value, ty)
+        z = pane.convert(y, ty)
+    except pane.ConvertError as e:
+        return ('ConvertError', str(e).splitlines()[0])
+    except Exception as e:      # noqa
+        return ('exc:' + type(e).__name__, str(e)[:80])
+    return ('ok', y, z)
+
+
+def _fixed_point_instances(m):
+    from pane.types import Range
+    cases = [
+        (fractions.Fraction(1, 3), fractions.Fraction), (decimal.Decimal('1.50'), decimal.Decimal), (datetime.date(2023, 9, 5), datetime.date),
+        (datetime.datetime(2023, 9, 5, 1, 2, 3), datetime.datetime), (datetime.time(1, 2, 3), datetime.time), (pathlib.PurePosixPath('/a/b'), pathlib.PurePosixPath),
+        (re.compile('a+b'), re.Pattern), ({1, 2}, t.Set[int]), (frozenset({'a'}), t.FrozenSet[str]), (collections.deque([1, 2]), collections.deque),
+        (Color.RED, Color), (True, bool), (5, int), (2.5, float), (1 + 2j, complex), ('s', str), (b'b', bytes), (None, type(None)),
+        (PReq(n=1), PReq), (PNest(inner=PReq(n=1), items=[PAlias(width=1)]), PNest), ([PReq(n=1), PReq(n=2, m='q')], t.List[PReq]),
+        ({'k': fractions.Fraction(1, 2)}, t.Dict[str, fractions.Fraction]), ([Color.RED], t.List[Color]), ((1, 'a'), t.Tuple[int, str]),
+        ([datetime.date(2023, 9, 5)], t.List[datetime.date]), (P2(a='x', b='y'), P2), (PRen(first_name='a'), PRen), (PMut(a=2), PMut),
+        (ValueOrList.from_val(5), ValueOrList[int]), (ValueOrList.from_list([1, 2]), ValueOrList[int]),
+        (Range(0, 10, n=11), Range), (Range(0.0, 1.0, step=0.25), Range),
+    ]
+    return [(_fixed_point_case, ['value', 'ty'], c, f'fixed_point[{type(c[0]).__name__}] convert({c[0]!r}, {_tyrepr(c[1])})') for c in cases]
+
+
+CUSTOM['pane.convert:fixed_point.bounded'] = _fixed_point_instances
